@@ -7,7 +7,7 @@ from .. import oracles as O
 from .setops import fnr, built
 
 from ..validate import validation_group
-BOUNDS = {'quick': {'alternatives': '1..2', 'identifier lists of the inputs': '<= 1 (the result may carry one more)', 'components': 'full u64 <= MAX_SAFE_INTEGER', 'mode': 'concrete order'},
+BOUNDS = {'quick': {'alternatives': '1..2', 'identifier lists of the inputs': '<= 1 with 1..2 alternatives, <= 2 with one alternative (the result may carry one more)', 'components': 'full u64 <= MAX_SAFE_INTEGER', 'mode': 'concrete order'},
           'thorough': {'alternatives': '1..4 (identifier lists <= 2 up to 2 alternatives, <= 1 beyond)', 'identifier lists of the inputs': '<= 2', 'components': 'same', 'mode': 'concrete order'}}
 OUTSIDE = ['ranges with more alternatives / longer identifier lists than the bound', 'probe versions v with longer identifier lists than the bound + 1']
 ASSUMPTIONS = ['O-sat as in C03 with the order [[Version::cmp]] (= O-order by C04)']
@@ -17,6 +17,9 @@ def groups(tier):
     K = 2 if tier == 'quick' else 4
     L = 1 if tier == 'quick' else 2
     gs = [{'name': 'min-K%d-L%d' % (k, L if k < 4 else 1), 'fn': min_group, 'args': {'k': k, 'L': L if k < 4 else 1}} for k in range(1, K + 1)]
+    if tier == 'quick':
+        # one alternative with identifier lists of up to 2 (seed C11-g: a step that only exists for dotted tags such as `alpha.1`)
+        gs.append({'name': 'min-K1-L2', 'fn': min_group, 'args': {'k': 1, 'L': 2}})
     gs.append(validation_group(('min_version',), tier))
     return gs
 
